@@ -72,7 +72,7 @@ def script_for(o, d, N, coords, values, rng, with_gt=True, seglocal=None):
 
 @C.run_scenarios
 def run_task(t):
-    return C.with_alt_path(one_stack, t)
+    return one_stack(t, None)
 
 
 def one_stack(t, values, suffix=''):
